@@ -82,6 +82,8 @@ def impl_fn(case):
     call("pl", lambda: m.patient_likelihoods(case["t"], mode=mode))
     call("log", lambda: m.likelihood(mode=mode))
     call("lin", lambda: m.likelihood(log=False, mode=mode))
+    if case["graph"]["base"] == 2:       # the network prior of every binary case, whatever mode the other queries use
+        call("sd_bn", lambda: m.state_dist(case["t"], mode="BN"))
     # relation: all contralateral findings unrecorded -> ipsilateral unilateral likelihood
     def reduced():
         pats = copy.deepcopy(case["patients"])
@@ -107,11 +109,12 @@ def coq_expr(case):
             f"(match bi_state_dist b {t} {hmm} with inr v => inr (qoutm v) | inl e => inl e end, "
             f"match bi_state_dist b {t} {hmm} with inr v => inr (qoutm (bi_obs_dist_of b v)) | inl e => inl e end, "
             f"match bi_patient_likelihoods b data {t} {hmm} with inr v => inr (qouts v) | inl e => inl e end, "
-            f"match {fac} with inr v => inr (qouts v) | inl e => inl e end)")
+            f"match {fac} with inr v => inr (qouts v) | inl e => inl e end, "
+            f"match bi_state_dist b {t} false with inr v => inr (qoutm v) | inl e => inl e end)")
 
 
 def compare(case, obs, val):
-    sd, od, pl, fac = val
+    sd, od, pl, fac, sd_bn = val
     if obs[0] == "err":
         return {"observable": "build/load", "actual": f"raised {obs[1]}: {obs[2]}", "expected": "values"}
     o = obs[1]
@@ -131,6 +134,16 @@ def compare(case, obs, val):
         d = first_diff(a, exp)
         if d:
             return {"observable": name, **d, "statement": stmt}
+    if "sd_bn" in o:
+        kind, payload = unres(sd_bn)
+        ob = o["sd_bn"]
+        if kind == "err" or ob[0] == "err":
+            if not (kind == "err" and ob[0] == "err" and ob[1] == payload):
+                return {"observable": "state_dist(mode='BN')", "actual": ob if ob[0] == "err" else "values", "expected": payload if kind == "err" else "values"}
+        else:
+            d = first_diff(np.asarray(ob[1], dtype=float), fracs(payload))
+            if d:
+                return {"observable": "state_dist(mode='BN')", **d, "statement": "BN joint = outer product of both sides' network distributions (C03_bn_outer_product)"}
     for name, key, lg in (("likelihood(log=True)", "log", True), ("likelihood(log=False)", "lin", False)):
         mm = _lik_cmp(name, (o[key][0], float(o[key][1]) if o[key][0] == "ok" else o[key][1]), fac, lg)
         if mm:
